@@ -730,6 +730,7 @@ type Datagram struct {
 	Orig      []byte // as sent
 	CopyOf    int    // ID of the datagram this one duplicates (0 = original)
 	Injected  bool
+	FromSrv   bool // sent by the server's socket
 	Modified  bool // link altered or truncated the payload
 	Dropped   bool
 	Delivered bool   // handed to a reader
@@ -751,6 +752,7 @@ type endpoint struct {
 	wdl    time.Time
 	closed bool
 	Closes int
+	conn   *DgramConn // set for a client's connected socket
 }
 
 // PacketConn is the server's unconnected datagram socket.
@@ -772,7 +774,19 @@ type PacketConn struct {
 type DgramConn struct {
 	endpoint
 	srv      *PacketConn
+	remote   Addr // the server address this socket is connected to (zero: the server's primary address)
 	Received []*Datagram
+	// Strays counts datagrams that arrived from another address than the one the
+	// socket is connected to: a connected datagram socket never sees those.
+	Strays int
+}
+
+//go:norace
+func (c *DgramConn) peerAddr() Addr {
+	if c.remote.S != "" {
+		return c.remote
+	}
+	return c.srv.addr
 }
 
 //go:norace
@@ -790,6 +804,7 @@ func (n *Net) DialPacket(pc *PacketConn) *DgramConn {
 	c := &DgramConn{srv: pc}
 	id := n.id()
 	c.endpoint = endpoint{n: n, ID: id, addr: Addr{"udp", "10.0.0.2:" + strconv.Itoa(40000+id)}}
+	c.endpoint.conn = c
 	pc.peers[c.addr.S] = c
 	return c
 }
@@ -806,6 +821,13 @@ type arriveEv struct {
 func (e *arriveEv) RunEvent(now time.Time) {
 	if e.to.closed {
 		e.d.Dropped = true
+		return
+	}
+	if c := e.to.conn; c != nil && e.d.From != c.peerAddr() {
+		// a connected socket only receives from its peer's address
+		e.d.Dropped = true
+		c.Strays++
+		e.n.K.BumpLocked("probe.reply_from_other_address_not_received")
 		return
 	}
 	e.to.rxq = append(e.to.rxq, e.d)
@@ -863,7 +885,7 @@ func (n *Net) route(from Addr, to *endpoint, payload []byte, injected bool, extr
 //go:norace
 func (n *Net) InjectToClient(c *DgramConn, payload []byte, delay time.Duration) *Datagram {
 	n.K.BumpLocked("fault.dgram_spoof")
-	return n.route(c.srv.addr, &c.endpoint, payload, true, delay)
+	return n.route(c.peerAddr(), &c.endpoint, payload, true, delay)
 }
 
 // InjectToServer places a datagram with the given source into the server's
@@ -942,7 +964,7 @@ func bufKey(p []byte) uintptr {
 }
 
 //go:norace
-func (pc *PacketConn) ReadFrom(p []byte) (int, net.Addr, error) {
+func (pc *PacketConn) recv(site string, p []byte) (*recvOp, error) {
 	k := pc.n.K
 	k.Lock()
 	pc.opN++
@@ -952,16 +974,25 @@ func (pc *PacketConn) ReadFrom(p []byte) (int, net.Addr, error) {
 	}
 	k.Unlock()
 	o := &recvOp{e: &pc.endpoint, p: p, pc: pc, opID: id}
-	r := &kernel.Req{Site: "pc.ReadFrom", Obj: pc.ID, Op: o}
+	r := &kernel.Req{Site: site, Obj: pc.ID, Op: o}
 	k.Block(r)
 	if r.Aborted {
-		return 0, nil, ErrClosed
+		return nil, ErrClosed
 	}
 	if o.err != nil {
-		return 0, nil, o.err
+		return nil, o.err
 	}
 	if o.d.hb != nil {
 		hbAcquire(o.d.hb)
+	}
+	return o, nil
+}
+
+//go:norace
+func (pc *PacketConn) ReadFrom(p []byte) (int, net.Addr, error) {
+	o, err := pc.recv("pc.ReadFrom", p)
+	if err != nil {
+		return 0, nil, err
 	}
 	return o.n, o.d.From, nil
 }
@@ -986,13 +1017,15 @@ func (pc *PacketConn) Scribble(d *Datagram) bool {
 }
 
 type sendOp struct {
-	hb   *uint32 // released by the sender before it parks; the datagrams made from this send share it
-	e    *endpoint
-	p    []byte
-	to   *endpoint
-	from Addr
-	err  error
-	d    *Datagram
+	hb     *uint32 // released by the sender before it parks; the datagrams made from this send share it
+	e      *endpoint
+	p      []byte
+	to     *endpoint
+	from   Addr
+	toAddr Addr // the address the datagram is sent to when the receiving host has several (zero: the endpoint's own)
+	srv    bool
+	err    error
+	d      *Datagram
 }
 
 //go:norace
@@ -1015,16 +1048,19 @@ func (o *sendOp) Done(now time.Time) {
 		return // no such peer: datagram vanishes
 	}
 	o.d = o.e.n.route(o.from, o.to, o.p, false, 0)
-	o.d.hb = o.hb
+	o.d.hb, o.d.FromSrv = o.hb, o.srv
+	if o.toAddr.S != "" {
+		o.d.To = o.toAddr
+	}
 	for _, c := range o.e.n.Dgrams[max(len(o.e.n.Dgrams)-2, 0):] {
 		if c.CopyOf == o.d.ID {
-			c.hb = o.hb // the link's duplicate carries the same ordering
+			c.hb, c.FromSrv, c.To = o.hb, o.srv, o.d.To // the link's duplicate carries the same ordering
 		}
 	}
 }
 
 //go:norace
-func (pc *PacketConn) WriteTo(p []byte, addr net.Addr) (int, error) {
+func (pc *PacketConn) sendFrom(site string, p []byte, addr net.Addr, from Addr) error {
 	var to *endpoint
 	if addr != nil {
 		if c := pc.peers[addr.String()]; c != nil {
@@ -1033,14 +1069,19 @@ func (pc *PacketConn) WriteTo(p []byte, addr net.Addr) (int, error) {
 	}
 	hb := new(uint32)
 	hbRelease(hb)
-	o := &sendOp{e: &pc.endpoint, p: p, to: to, from: pc.addr, hb: hb}
-	r := &kernel.Req{Site: "pc.WriteTo", Obj: pc.ID, Op: o}
+	o := &sendOp{e: &pc.endpoint, p: p, to: to, from: from, hb: hb, srv: true}
+	r := &kernel.Req{Site: site, Obj: pc.ID, Op: o}
 	pc.n.K.Block(r)
 	if r.Aborted {
-		return 0, ErrClosed
+		return ErrClosed
 	}
-	if o.err != nil {
-		return 0, o.err
+	return o.err
+}
+
+//go:norace
+func (pc *PacketConn) WriteTo(p []byte, addr net.Addr) (int, error) {
+	if err := pc.sendFrom("pc.WriteTo", p, addr, pc.addr); err != nil {
+		return 0, err
 	}
 	return len(p), nil
 }
@@ -1128,14 +1169,14 @@ func (c *DgramConn) Read(p []byte) (int, error) {
 //go:norace
 func (c *DgramConn) ReadFrom(p []byte) (int, net.Addr, error) {
 	n, err := c.Read(p)
-	return n, c.srv.addr, err
+	return n, c.peerAddr(), err
 }
 
 //go:norace
 func (c *DgramConn) Write(p []byte) (int, error) {
 	hb := new(uint32)
 	hbRelease(hb)
-	o := &sendOp{e: &c.endpoint, p: p, to: &c.srv.endpoint, from: c.addr, hb: hb}
+	o := &sendOp{e: &c.endpoint, p: p, to: &c.srv.endpoint, from: c.addr, toAddr: c.remote, hb: hb}
 	r := &kernel.Req{Site: "dg.Write", Obj: c.ID, Op: o}
 	c.n.K.Block(r)
 	if r.Aborted {
@@ -1151,7 +1192,7 @@ func (c *DgramConn) Write(p []byte) (int, error) {
 func (c *DgramConn) WriteTo(p []byte, _ net.Addr) (int, error) { return c.Write(p) }
 
 //go:norace
-func (c *DgramConn) RemoteAddr() net.Addr { return c.srv.addr }
+func (c *DgramConn) RemoteAddr() net.Addr { return c.peerAddr() }
 
 var _ net.Conn = (*StreamConn)(nil)
 var _ net.Conn = (*DgramConn)(nil)
